@@ -119,6 +119,27 @@ class Footprints:
         return out
 
 
+def raw_tree(fiber, depth, dims, default=0):
+    """Tree spec of the fibers that are actually in the tree now: a raw walk over
+    the `coords` / `payloads` lists starting at the root fiber (duck-typed; the
+    rank objects and their fiber lists are not consulted).  Leaf cells: '-' no
+    stored element, '0' stored leaf default, 'v' any other stored value."""
+    def unwrap(p):
+        return p if hasattr(p, "coords") else getattr(p, "value", p)
+
+    def rec(f, l):
+        if l == depth - 1:
+            cells = ['-'] * dims[l]
+            for c, p in zip(f.coords, f.payloads):
+                cells[c] = '0' if unwrap(p) == default else 'v'
+            return tuple(cells)
+        kids = [None] * dims[l]
+        for c, p in zip(f.coords, f.payloads):
+            kids[c] = rec(unwrap(p), l + 1)
+        return tuple(kids)
+    return rec(fiber, 0)
+
+
 # ---------------------------------------------------------------------------
 # pairwise covering arrays (deterministic greedy, verified)
 
